@@ -284,18 +284,21 @@ the looping list machine delivers in the ticks `ticks_k … ticks_k + updTicks k
 that has ended writes nothing. -/
 theorem single_update (id : Nat) (hsingle : SingleTrack song id root)
     (cEnd : Core) (B : Nat) (hend : EndOK song root cEnd) (hB : 2 * B + 2 ≤ settleFuel)
-    (CI : Ch → Prop) (hreset : ∀ c, CI c → CI (resetLoopCh c)) (P : List (List Event) → List Wr → Prop)
+    (CI : Ch → Prop) (hreset : ∀ c, CI c → CI (resetLoopCh c)) (P : G → List (List Event) → G → List Wr → Prop)
     (hupd : ∀ n g c s' ws, CI c → g.err = none → ctRun song root n ⟨c.ps.core, c.ps.acc⟩ = some (s', ws) →
       (chUpdate d song n g c).1.err.isSome = true ∨
         ((chUpdate d song n g c).2.1.ps.core = s'.core ∧ (chUpdate d song n g c).2.1.ps.acc = s'.acc ∧ CI (chUpdate d song n g c).2.1 ∧
-          P ws (chUpdate d song n g c).2.2))
+          P g ws (chUpdate d song n g c).1 (chUpdate d song n g c).2.2))
     (hinit : CI (mkCh d id root).1) (m0 : LX)
     (hrel0 : RelX song root cEnd B ⟨(mkCh d id root).1.ps.core, (mkCh d id root).1.ps.acc⟩ m0)
     (k : Nat) (herr : ∀ j, j ≤ k + 1 → (updRun d song j (playSong d song).1).g.err = none) :
     ((lxAfter (updRun d song k (playSong d song).1).ticks m0).enabled = true →
-      P (lxRun (updTicks d song (playSong d song).1 k) (lxAfter (updRun d song k (playSong d song).1).ticks m0))
-        (updWrs d song (playSong d song).1 k)) ∧
-    ((lxAfter (updRun d song k (playSong d song).1).ticks m0).enabled = false → updWrs d song (playSong d song).1 k = []) := by
+      P (updRun d song k (playSong d song).1).g
+        (lxRun (updTicks d song (playSong d song).1 k) (lxAfter (updRun d song k (playSong d song).1).ticks m0))
+        (seqUpdate d song (updRun d song k (playSong d song).1)).1.g (updWrs d song (playSong d song).1 k)) ∧
+    ((lxAfter (updRun d song k (playSong d song).1).ticks m0).enabled = false →
+      updWrs d song (playSong d song).1 k = [] ∧
+      (seqUpdate d song (updRun d song k (playSong d song).1)).1.g = (updRun d song k (playSong d song).1).g) := by
   obtain ⟨c, hc, hci, hrel⟩ := single_inv d song root id hsingle cEnd B hend hB CI hreset
     (fun n g c s' ws a b cc => by
       rcases hupd n g c s' ws a b cc with h | ⟨h1, h2, h3, _⟩
@@ -318,7 +321,7 @@ theorem single_update (id : Nat) (hsingle : SingleTrack song id root)
   have hg1 : (updateAll d song n s.g [c]).1.err = none := by
     rw [← hseq.2, ← (stepLoop_g _).1]; exact hg'
   have hen : c.enabled = (lxAfter s.ticks m0).enabled := hrel.1
-  rw [hw0, hseq.1]
+  rw [hw0, hseq.1, hseq.2]
   rw [updateAll_single] at hg1 ⊢
   constructor
   · intro h
@@ -332,6 +335,7 @@ theorem single_update (id : Nat) (hsingle : SingleTrack song id root)
     rw [← hen] at h
     have : ¬ c.enabled = true := by rw [h]; simp
     rw [if_neg this]
+    exact ⟨rfl, rfl⟩
 
 end
 
@@ -380,7 +384,7 @@ theorem single_fm_keys (id : Nat) (hid : id < 6) (hsingle : SingleTrack song id 
       (updRun d song (k + 1) (playSong d song).1).ticks (keysV (updOps d song (playSong d song).1 k)) := by
   have hcid : id % 3 < 3 := Nat.mod_lt _ (by decide)
   have hbank : id / 3 < 2 := by omega
-  obtain ⟨P, hP⟩ : ∃ P : List (List Event) → List Wr → Prop, P = fun ws wrs =>
+  obtain ⟨P, hP⟩ : ∃ P : G → List (List Event) → G → List Wr → Prop, P = fun _ ws _ wrs =>
       (∀ x ∈ keys wrs, x = koff (id / 3) (id % 3) ∨ x = kon (id / 3) (id % 3)) ∧
       ((∃ e ∈ ws.flatten, e.type = ev_NOTE ∨ e.type = ev_REST ∨ e.type = ev_END) → koff (id / 3) (id % 3) ∈ keys wrs) ∧
       (koff (id / 3) (id % 3) ∈ keys wrs → ∃ e ∈ ws.flatten, e.type = ev_NOTE ∨ e.type = ev_TIE ∨ e.type = ev_REST ∨ e.type = ev_END) ∧
@@ -418,11 +422,12 @@ theorem single_fm_keys (id : Nat) (hid : id < 6) (hsingle : SingleTrack song id 
   have hkv : keysV (updOps d song s0 k) = keys (updWrs d song s0 k) := by
     rw [updOps_eq, keysV_append, keysV_toOps, keysV_updMark, List.append_nil]
   rw [hkv]
-  have hfacts : P (lxRun (updTicks d song s0 k) (lxAfter (updRun d song k s0).ticks m0)) (updWrs d song s0 k) := by
+  have hfacts : P (updRun d song k s0).g (lxRun (updTicks d song s0 k) (lxAfter (updRun d song k s0).ticks m0))
+      (seqUpdate d song (updRun d song k s0)).1.g (updWrs d song s0 k) := by
     cases hen : (lxAfter (updRun d song k s0).ticks m0).enabled with
     | true => exact hu.1 hen
     | false =>
-      rw [hu.2 hen, hP]
+      rw [(hu.2 hen).1, hP]
       have hnil := lxRun_disabled (updTicks d song s0 k) _ hen
       simp [hnil]
   rw [hP] at hfacts
